@@ -154,13 +154,17 @@ func init() {
 		ID: "C09",
 		Explanation: "Decides structural necessary conditions of longest-match-with-priority tables: DTX(accept-priority): in a DFA state the accepted rule is replaced only by a rule of strictly higher precedence, equal precedence with a different action is an error. FIELDCOV(checkpoint): backtracking checkpoints are shared only between transitions with the same target state and the same accepted action, and carry that action. " +
 			"CODEC(lexdfa): the writer's three cell classes (state, checkpoint k = -1-k, accept = -1-action shifted below the checkpoints) are produced under the right tests; Tables.Scan reads Backtrack[-1-cell] only for actionStart < cell < 0, computes actionStart-cell only for cell <= actionStart (also on the end-of-input transition), and prefers a recorded checkpoint over the invalid action. " +
-			"Not decided: subset construction, epsilon closure, symbol-class compression. PAIR(checkpoint): recording a backtracking checkpoint records both the accepted action and the offset (Tables.Scan and the generated lexers).",
-		Rules: []string{"DTX(accept-priority)", "FIELDCOV(checkpoint)", "CODEC(lexdfa)", "PAIR(checkpoint)"},
+			"Not decided: subset construction, epsilon closure, symbol-class compression. PAIR(checkpoint): recording a backtracking checkpoint records both the accepted action and the offset (Tables.Scan and the generated lexers). GUARD(empty-accept): addPattern reports `accepts empty text` both for accepting instructions linked from a pattern's first instruction and for an accepting first instruction itself (patterns that compile to no instruction: (), a{0}). INPLACE(write-behind-read): the in-place link filter of reCompiler.compile never writes ahead of its read cursor. GUARD(full-match): callers that use Tables.Scan to classify a whole constant (compiler.resolveClasses) compare the matched size with len(text) before trusting the action. LOOPSHAPE(fold-orbit) as in C10 (case folding visits the whole orbit, also in bytes mode).",
+		Rules: []string{"DTX(accept-priority)", "FIELDCOV(checkpoint)", "CODEC(lexdfa)", "PAIR(checkpoint)", "GUARD(empty-accept)", "INPLACE(write-behind-read)", "GUARD(full-match)", "LOOPSHAPE(fold-orbit)"},
 		Run: func(c *Ctx) {
 			ruleACCEPTPRIO(c)
 			ruleCHECKPOINTKEY(c)
 			ruleLEXCODEC(c)
 			ruleCHECKPOINTPAIR(c)
+			ruleEMPTYACCEPT(c)
+			ruleINPLACE(c, "lex")
+			ruleFULLMATCH(c, "compiler", "gen", "grammar")
+			ruleFOLDORBIT(c)
 		},
 	})
 	register(&Property{
@@ -201,9 +205,9 @@ func init() {
 		Explanation: "Decides structural necessary conditions of 'tokenization progresses and tracks lines' on the five generated lexers, tm's hand-written skipAction and js's lexer_impl: PROGRESS: on the no-match path an empty token is extended by l.rewind(l.scanOffset). CURSOR: every read l.source[e] is dominated by e < len(l.source) and the scan offset advances only under l.offset < len(l.source). " +
 			"LINECOL: every store to lineOffset equals the offset of the first byte of the current line (0; 1+LastIndexByte(source[:offset],'\\n'); under l.ch=='\\n' the scan offset); functions that bump l.line keep lineOffset in step when the lexer reports columns; every cycle that advances the cursor passes the newline test; rewind subtracts newlines of source[offset:l.offset] when moving back and adds those of source[l.offset:offset] when moving forward. " +
 			"RESET(checkpoint): the backtracking checkpoint is -1 on every edge into the scanning loop, including each goto restart after a skipped token. CODEC(runemap): generated mapRune reads an entry of the compressed rune map only for r.lo <= c < r.hi, the half-open interval lex.CompressedMap fills. " +
-			"Not decided: tiling (needs table semantics), the BOM clause, js's regexp/template/JSX state machine beyond these rules.",
-		Rules: []string{"PROGRESS", "CURSOR", "LINECOL", "CODEC(runemap)", "RESET(checkpoint)"},
-		Run:   func(c *Ctx) { rulePROGRESS(c); ruleCURSOR(c); ruleLINECOL(c); ruleRUNEMAP(c); ruleCKRESET(c) },
+			"Not decided: tiling (needs table semantics), the BOM clause, js's regexp/template/JSX state machine beyond these rules. GUARD(empty-accept) as in C09 (no rule matches the empty string, so every token is non-empty).",
+		Rules: []string{"PROGRESS", "CURSOR", "LINECOL", "CODEC(runemap)", "RESET(checkpoint)", "GUARD(empty-accept)"},
+		Run:   func(c *Ctx) { rulePROGRESS(c); ruleCURSOR(c); ruleLINECOL(c); ruleRUNEMAP(c); ruleCKRESET(c); ruleEMPTYACCEPT(c) },
 	})
 	register(&Property{
 		ID: "C11",
@@ -336,10 +340,11 @@ func init() {
 	register(&Property{
 		ID: "C20",
 		Explanation: "Decides structural necessary conditions of 'parse events form a well-nested tree': VARIANT(flush-after-extend): in recoverFromError the error node is flushed only after its range was extended over pending invalid tokens (otherwise tokens inside the node are reported after it). VARIANT(trim-trailing-empty): every parse loop that trims trailing empty symbols does so in a loop (all of them), so a node never runs into following whitespace/comments that are still pending. " +
-			"STACKIDX: reported ranges are non-empty sub-ranges of the rule. Not decided: the tree builder, nesting under recovery in general. INITCOV: every field of Lexer/Parser/TokenStream that another method modifies is assigned on every path by Init (or by the first block of parse()), so no run state of an earlier input (pending tokens of a cancelled parse) reaches the next input's event stream; four audited exemptions. INITCOV: every field of Lexer/Parser/TokenStream that another method modifies is assigned on every path by Init (or by the first block of parse()), so no run state of an earlier input (pending tokens of a cancelled parse) reaches the next input's event stream; audited exemptions are listed in the rule.",
-		Rules: []string{"INITCOV", "VARIANT", "STACKIDX"},
+			"STACKIDX: reported ranges are non-empty sub-ranges of the rule. Not decided: the tree builder, nesting under recovery in general. INITCOV: every field of Lexer/Parser/TokenStream that another method modifies is assigned on every path by Init (or by the first block of parse()), so no run state of an earlier input (pending tokens of a cancelled parse) reaches the next input's event stream; four audited exemptions. INITCOV: every field of Lexer/Parser/TokenStream that another method modifies is assigned on every path by Init (or by the first block of parse()), so no run state of an earlier input (pending tokens of a cancelled parse) reaches the next input's event stream; audited exemptions are listed in the rule. GUARD(root-adopts-all): builder.build() of each generated ast package either fails unless one node is left on the stack or adds the file node with an end offset beyond the input, so that every reported node (an empty node at the very end included) is in the tree.",
+		Rules: []string{"INITCOV", "VARIANT", "STACKIDX", "GUARD(root-adopts-all)"},
 		Run: func(c *Ctx) {
 			ruleINITCOV(c, "TokenStream", "Lexer", "Parser")
+			ruleROOTADOPT(c)
 			ruleRECOVERY(c)
 			ruleSTACKIDX(c)
 		},
